@@ -324,6 +324,11 @@ MODULE_POSITIONS = {
     "integer parameter": ("  8 [+1]  Tee(%s)  zz\n", "integer", FIELD_EXPRS),
     "enum parameter": ("  8 [+1]  TeeE(%s)  zz\n", "enumA", FIELD_EXPRS),
     "virtual field condition": ("  if %s:\n    let zz = 1\n", "boolean", FIELD_EXPRS),
+    # inner dimensions must be constants, so these positions use the constant expression table
+    "array length (constant)": ("  8 [+12]  UInt:8[%s]  zz\n", "integer", {k: v for k, v in CONST_EXPRS.items()}),
+    "inner array length": ("  8 [+12]  UInt:8[%s][]  zz\n", "integer", CONST_EXPRS),
+    "innermost of three array lengths": ("  8 [+12]  UInt:8[%s][2][]  zz\n", "integer", CONST_EXPRS),
+    "middle of three array lengths": ("  8 [+12]  UInt:8[2][%s][]  zz\n", "integer", CONST_EXPRS),
 }
 
 
